@@ -197,14 +197,41 @@ def _pit_row_names(net, kind, pit):
     names = []
     cnt = {}
     ident = getattr(CTX, "ident", None) or {}
+    owners = _internal_node_owners(net) if kind == "node" else {}
+    pos_in_tbl = {}
     for r in range(len(pit)):
         tname = get_table_name(tbl_lookup, int(pit[r, 0]))
         e = int(pit[r, 1])
-        e = ident.get(tname, {}).get(e, e)
+        if tname in owners:
+            # internal nodes carry no element index: identify them by their owning element
+            k0 = pos_in_tbl.get(tname, 0)
+            pos_in_tbl[tname] = k0 + 1
+            otbl, e = owners[tname][k0] if k0 < len(owners[tname]) else (tname, e)
+            e = ident.get(otbl, {}).get(e, e)
+        else:
+            e = ident.get(tname, {}).get(e, e)
         k = cnt.get((tname, e), 0)
         cnt[(tname, e)] = k + 1
         names.append("%s:%s:%d" % (tname, e, k))
     return names
+
+
+def _internal_node_owners(net):
+    """internal node table -> list of (owner table, owner label) in pit order"""
+    out = {}
+    try:
+        if "pipe" in net and len(net.pipe):
+            lst = []
+            for ix, sec in zip(net.pipe.index, net.pipe.sections.values):
+                lst += [("pipe", int(ix))] * (int(sec) - 1)
+            out["pipe_nodes"] = lst
+        if "valve" in net and len(net.valve):
+            from pandapipes.component_models.valve_component import Valve
+            n_int = Valve.get_internal_node_number(net)
+            out["valve_nodes"] = [("valve", int(ix)) for ix, k in zip(net.valve.index, n_int) for _ in range(int(k))]
+    except Exception:
+        pass
+    return out
 
 
 def _havoc(net, mode):
